@@ -489,6 +489,14 @@ func reifyMergeValue(
 		if err != nil {
 			return reflect.Value{}, err
 		}
+
+		// the value is validated like one that is converted by the library
+		if err := runValidators(old.Interface(), opts.validators); err != nil {
+			return reflect.Value{}, raiseValidation(val.Context(), val.meta(), "", err)
+		}
+		if err := tryValidate(old); err != nil {
+			return reflect.Value{}, raiseValidation(val.Context(), val.meta(), "", err)
+		}
 		return old, nil
 	}
 
